@@ -279,6 +279,106 @@ theorem incDistribute_exact (s : State) (gs : List Gauge) (ee : Bool) (s' : Stat
       show amt (b.get a) i = _
       rw [p2 a ha i, hb, e, hnil]; omega
 
+/-! ### the gauge side: the stored gauge's distributed coins grow by exactly what it hands out -/
+
+theorem getG_set_self (gs : List Gauge) (id : Nat) (v : Gauge) (h0 : id ≠ 0) (hk : id - 1 < gs.length) :
+    getG (gs.set (id - 1) v) id = some v := by
+  unfold getG
+  rw [if_neg h0]
+  simp [hk]
+
+theorem incLoop_gauges_exact (ee : Bool) : ∀ (gs : List Gauge) (s : State) (tr : Tracker) (s' : State) (tr' : Tracker),
+    IdsOK s.gauges → (gs.map (·.id)).Nodup → (∀ g ∈ gs, Coh s.gauges g) → incLoop ee gs s tr = .ok (s', tr') →
+    (∀ id, id ∉ gs.map (·.id) → getG s'.gauges id = getG s.gauges id) ∧
+    (∀ g ∈ gs, ∃ g', getG s'.gauges g.id = some g' ∧ ∀ i, amt g'.distributed i = amt g.distributed i + dueTotal s g i) := by
+  intro gs
+  induction gs with
+  | nil =>
+    intro s tr s' tr' _ _ _ h
+    simp only [incLoop, Except.ok.injEq, Prod.mk.injEq] at h
+    rw [← h.1]
+    exact ⟨fun _ _ => rfl, by simp⟩
+  | cons g rest ih =>
+    intro s tr s' tr' hid hnd hcoh h
+    have hnd0 : (g.id :: rest.map (·.id)).Nodup := hnd
+    obtain ⟨hn1, hnd'⟩ := List.nodup_cons.1 hnd0
+    have hgnot : ∀ x ∈ rest, x.id ≠ g.id := by
+      intro x hx he
+      exact hn1 (by rw [← he]; exact List.mem_map_of_mem (f := (·.id)) hx)
+    obtain ⟨g0, hg0, hd, _, _⟩ := hcoh g List.mem_cons_self
+    obtain ⟨hid1, hk, _, _, _⟩ := getG_some hid hg0
+    unfold incLoop at h
+    cases hc : calcGauge s g tr with
+    | err => simp [hc] at h
+    | panic => simp [hc] at h
+    | ok t2 c =>
+      simp only [hc] at h
+      have etot : ∀ i, amt c i = dueTotal s g i := fun i => (calcGauge_exact s g tr t2 c hc 0 i).2
+      by_cases hz : c.isZero = true
+      · rw [if_pos hz] at h
+        obtain ⟨i1, i2⟩ := ih s t2 s' tr' hid hnd' (fun x hx => hcoh x (List.mem_cons_of_mem _ hx)) h
+        refine ⟨?_, ?_⟩
+        · intro id hnot
+          simp only [List.map_cons, List.mem_cons, not_or] at hnot
+          exact i1 id hnot.2
+        · intro x hx
+          rcases List.mem_cons.1 hx with h1 | h1
+          · rw [h1]
+            refine ⟨g0, by rw [i1 g.id hn1]; exact hg0, ?_⟩
+            intro i
+            rw [← etot i, (isZero_iff _).1 hz i, ← hd]; omega
+          · exact i2 x h1
+      · rw [if_neg hz] at h
+        generalize hg' : ({ g with filled := if ee then g.filled + 1 else g.filled, distributed := Coins.add g.distributed c } : Gauge) = g' at h
+        have hg'id : g'.id = g.id := by rw [← hg']
+        have hs1 : setGauge s g' = { s with gauges := s.gauges.set (g.id - 1) g' } := by
+          unfold setGauge; rw [hg'id]
+        rw [hs1] at h
+        have hid' : IdsOK (s.gauges.set (g.id - 1) g') := idsOK_set hid _ _ (by rw [hg'id]; omega)
+        have hcoh' : ∀ x ∈ rest, Coh (s.gauges.set (g.id - 1) g') x := by
+          intro x hx
+          obtain ⟨x0, hx0, r⟩ := hcoh x (List.mem_cons_of_mem _ hx)
+          refine ⟨x0, ?_, r⟩
+          rw [getG_set_ne _ _ _ _ (by have := hgnot x hx; omega)]
+          exact hx0
+        obtain ⟨i1, i2⟩ := ih { s with gauges := s.gauges.set (g.id - 1) g' } t2 s' tr' hid' hnd' hcoh' h
+        refine ⟨?_, ?_⟩
+        · intro id hnot
+          simp only [List.map_cons, List.mem_cons, not_or] at hnot
+          rw [i1 id hnot.2]
+          exact getG_set_ne _ _ _ _ (by have := hnot.1; omega)
+        · intro x hx
+          rcases List.mem_cons.1 hx with h1 | h1
+          · rw [h1]
+            refine ⟨g', ?_, ?_⟩
+            · rw [i1 g.id hn1]
+              exact getG_set_self s.gauges g.id g' (by omega) hk
+            · intro i
+              rw [← hg', ← etot i]
+              simp only [amt_add]
+          · obtain ⟨x', a1, a2⟩ := i2 x h1
+            refine ⟨x', a1, ?_⟩
+            intro i
+            rw [a2 i, (dueG_congr (s := s) (s' := { s with gauges := s.gauges.set (g.id - 1) g' }) rfl rfl x 0 i).2]
+
+/-- **every call of x/incentives `Keeper.Distribute`**: every gauge handed in (a copy of a stored gauge) ends up
+    stored with distributed coins grown by exactly what it owed -/
+theorem incDistribute_gauges_exact (s : State) (gs : List Gauge) (ee : Bool) (s' : State) (hid : IdsOK s.gauges)
+    (hnd : (gs.map (·.id)).Nodup) (hcoh : ∀ g ∈ gs, Coh s.gauges g) (h : incDistribute s gs ee = .ok s') :
+    ∀ g ∈ gs, ∃ g', getG s'.gauges g.id = some g' ∧ ∀ i, amt g'.distributed i = amt g.distributed i + dueTotal s g i := by
+  unfold incDistribute at h
+  cases hl : incLoop ee gs s [] with
+  | error e => simp [hl] at h
+  | ok p =>
+    obtain ⟨s1, tr⟩ := p
+    simp only [hl] at h
+    cases hp : payAll tr s1.bank with
+    | none => simp [hp] at h
+    | some b =>
+      simp only [hp, Except.ok.injEq] at h
+      subst h
+      exact (incLoop_gauges_exact ee gs s [] s1 tr hid hnd hcoh hl).2
+
 /-- **x/streamer `Keeper.Distribute` (EndBlock and epoch end), state level**: there is a list of gauges — the
     gauges the pass funded, each a copy of a stored gauge (same kind, same distributed coins, coins topped up),
     ids distinct — such that every account other than the two module accounts is credited exactly what those
@@ -286,8 +386,9 @@ theorem incDistribute_exact (s : State) (gs : List Gauge) (ee : Bool) (s' : Stat
 theorem strDistribute_pays_exactly (s : State) (es : List Nat) (streams : List Stream) (maxOps : Nat) (ee : Bool) (s' : State)
     (hg : GInv s) (h : strDistribute s es streams maxOps ee = .ok s') :
     ∃ gs : List Gauge, (gs.map (·.id)).Nodup ∧ (∀ g ∈ gs, Coh s.gauges g) ∧
-      ∀ a, a ≠ streamerAddr → a ≠ incAddr → ∀ i,
-        amt (s'.bank.get a) i = amt (s.bank.get a) i + (gs.map (dueG s · a i)).sum := by
+      (∀ a, a ≠ streamerAddr → a ≠ incAddr → ∀ i,
+        amt (s'.bank.get a) i = amt (s.bank.get a) i + (gs.map (dueG s · a i)).sum) ∧
+      (∀ g ∈ gs, ∃ g', getG s'.gauges g.id = some g' ∧ ∀ i, amt g'.distributed i = amt g.distributed i + dueTotal s g i) := by
   unfold strDistribute at h
   have hci := ptrLoop_CI s hg.ids maxOps (sortByDuration es) 0 ⟨sortById streams, [], []⟩ s.ptrs
     ⟨by simp, by simp, by intro i; simp [extras]⟩
@@ -299,17 +400,25 @@ theorem strDistribute_pays_exactly (s : State) (es : List Nat) (streams : List S
   refine ⟨c.gauges, ci1, ci2, ?_⟩
   have key : ∀ b : Bank, (∀ a, a ≠ streamerAddr → a ≠ incAddr → ∀ i, amt (b.get a) i = amt (s.bank.get a) i) →
       ∀ s2, incDistribute { s with ptrs := ps, bank := b } c.gauges ee = .ok s2 → saveStreams ee c.streams s2 = .ok s' →
-      ∀ a, a ≠ streamerAddr → a ≠ incAddr → ∀ i,
-        amt (s'.bank.get a) i = amt (s.bank.get a) i + (c.gauges.map (dueG s · a i)).sum := by
-    intro b hb2 s2 hinc hsave a ha hb i
-    have e := incDistribute_exact _ _ _ _ hinc a hb i
+      (∀ a, a ≠ streamerAddr → a ≠ incAddr → ∀ i,
+        amt (s'.bank.get a) i = amt (s.bank.get a) i + (c.gauges.map (dueG s · a i)).sum) ∧
+      (∀ g ∈ c.gauges, ∃ g', getG s'.gauges g.id = some g' ∧ ∀ i, amt g'.distributed i = amt g.distributed i + dueTotal s g i) := by
+    intro b hb2 s2 hinc hsave
     have hsame := saveStreams_same ee _ _ _ hsave
-    rw [hsame.2.1, e]
-    simp only
-    rw [hb2 a ha hb i]
-    have : c.gauges.map (dueG { s with ptrs := ps, bank := b } · a i) = c.gauges.map (dueG s · a i) :=
-      List.map_congr_left (fun x _ => (dueG_congr (s := s) (s' := { s with ptrs := ps, bank := b }) rfl rfl x a i).1)
-    rw [this]
+    refine ⟨?_, ?_⟩
+    · intro a ha hb i
+      have e := incDistribute_exact _ _ _ _ hinc a hb i
+      rw [hsame.2.1, e]
+      simp only
+      rw [hb2 a ha hb i]
+      have : c.gauges.map (dueG { s with ptrs := ps, bank := b } · a i) = c.gauges.map (dueG s · a i) :=
+        List.map_congr_left (fun x _ => (dueG_congr (s := s) (s' := { s with ptrs := ps, bank := b }) rfl rfl x a i).1)
+      rw [this]
+    · intro g hgm
+      obtain ⟨g', a1, a2⟩ := incDistribute_gauges_exact { s with ptrs := ps, bank := b } c.gauges ee s2 hg.ids ci1 ci2 hinc g hgm
+      refine ⟨g', by rw [hsame.1]; exact a1, ?_⟩
+      intro i
+      rw [a2 i, (dueG_congr (s := s) (s' := { s with ptrs := ps, bank := b }) rfl rfl g 0 i).2]
   by_cases hz : c.distributed.isZero = true
   · simp only [hz, if_true] at h
     cases hinc : incDistribute { s with ptrs := ps, bank := s.bank } c.gauges ee with
